@@ -11,7 +11,7 @@ Package ids are positions in the list. Query pool: types and names in order of f
 import Scalibr.Base.Wire
 import Scalibr.Base.Sort
 import Scalibr.Spec.Index
-import Scalibr.Model.ProtoPkg
+import Scalibr.Spec.ProtoPkg
 import Scalibr.Gen.Purl
 open Scalibr Scalibr.Wire Scalibr.Index
 
@@ -88,7 +88,7 @@ def annStr : ProtoPkg.ProtoAnnotation → String
 /-- the metadata of a `proto` case is its Go type name; `setProtoMetadata` sets the oneof iff its switch has that type -/
 def protoOps (eco ex : String) (u : Option ProtoPkg.Purl) : ProtoPkg.Ops String Unit :=
   { toPURL := fun _ => u, ecosystem := fun _ => eco, extractorName := fun _ => ex,
-    purlString := fun _ => "", setMeta := fun t => if Scalibr.Gen.Purl.protoMetaTypes.contains t then some () else none }
+    purlString := fun _ => "S", setMeta := fun t => if Scalibr.Gen.Purl.protoMetaTypes.contains t then some () else none }
 
 def handleProto (t : List String) : String :=
   match t with
@@ -106,6 +106,22 @@ def handleProto (t : List String) : String :=
         | none => "_"
         | some p => ":".intercalate [hexE p.typ, hexE p.ns, hexE p.name, hexE p.version, qualsStr p.qualifiers, hexE p.subpath]
       let annS := if r.annotations.isEmpty then "_" else ",".intercalate (r.annotations.map annStr)
+      -- SPEC side: the package's generic content (`genericOf`), rendered; the harness renders what the spec reader (`read`)
+      -- recovers from the REAL record the same way. `repr` = `Representable pkg` (C14_proto_lossless_partial's hypothesis)
+      let g := ProtoPkg.genericOf (protoOps eco ex pu) pkg
+      let gSrc := match g.sourceCode with | none => "_" | some s => hexE s.repo ++ ":" ++ hexE s.commit
+      let gLay := match g.layerDetails with
+        | none => "_"
+        | some l => s!"{l.index}:{hexE l.diffID}:{hexE l.command}:{boolStr l.inBaseImage}"
+      let gPu := match g.purl with
+        | none => "_"
+        | some p => ":".intercalate [hexE p.typ, hexE p.ns, hexE p.name, hexE p.version, qualsStr p.qualifiers, hexE p.subpath]
+      let gAnn := if g.annotations.isEmpty then "_" else ",".intercalate (g.annotations.map toString)
+      let sgen := "|".intercalate [hexE g.name, hexE g.version, itemsStr g.locations, gSrc, gAnn, gLay, gPu, g.purlString.getD "_",
+        hexE g.ecosystem, hexE g.extractor]
+      let repr := anns.all (fun a => a == 0 || a == 1 || a == 2 || a == 3) &&
+        (match layer with | none => true | some l => decide (-2147483648 ≤ l.index) && decide (l.index < 2147483648))
+      s!"sgen={sgen} repr={boolStr repr} " ++
       s!"name={hexE r.name} version={hexE r.version} locs={itemsStr r.locations} src={srcS} anns={annS} layer={layS} purl={puS} " ++
       s!"eco={hexE r.ecosystem} ex={hexE r.extractor} meta={boolStr r.metadata.isSome} pstr=1"
     | _, _, _, _, _, _, _, _, _, _ => "bad-op"
